@@ -126,7 +126,7 @@ def run():
     ndef_cat = sum(len(v) for v in cat["fam"].values())
     missing_def = sorted(f"{f}.{leaf}" for f, v in cat["fam"].items() for leaf in v if f"{f}.{leaf}" not in def_leaves
                          and drv.leaf_type(leaf.split(".")) is not None)
-    missing_ops = {"SetObj", "SetDef", "Reset", "Copy", "Show", "SetKids"} - set(stats["ops"])
+    missing_ops = {"SetObj", "SetObjs", "SetDef", "Reset", "Copy", "Show", "SetKids"} - set(stats["ops"])
     if missing_ops:
         raise MachineryError(f"actions of MC_Style never instantiated on the implementation: {sorted(missing_ops)}")
     if missing_def and not flt:
@@ -160,7 +160,7 @@ def run():
         fams = sorted(notrestored) if (op == "Reset" and clause == "ResetRestores") else [tgt if op == "SetDef" else ""]
         for fam in fams:
             where = {"cls": cls, "leaf": leaf, "op": op, "notation": notation, "outcome": outcome, "family": fam}
-            arg = f"{s.get('asg')}, recursive={s.get('rec')}" if op == "SetKids" else f"{s.get('l', '')}, {s.get('v', '')}"
+            arg = f"{s.get('asg')}, recursive={s.get('rec')}" if op == "SetKids" else f"{s.get('tgts')}, {s.get('l')}, {s.get('v')}" if op == "SetObjs" else f"{s.get('l', '')}, {s.get('v', '')}"
             what = (f"{cls}.{leaf}: {op}({tgt or s.get('src', '')}, {arg}) via {notation} -> {outcome}"
                     f"{' ' + s.get('exc', '') if s.get('exc') else ''}{' family ' + fam if fam else ''}: {clause}")
             rep.reject(clause, where, what, det, prop=prop)
